@@ -1,6 +1,7 @@
 """Contract modules of the verification (see DESIGN.md)."""
 MODULES = [
     'contracts.keys',
+    'contracts.layout',
 ]
 EXTRA_CHECKS = {}
 EXTRA_REPLAY = {}
